@@ -97,6 +97,13 @@ def _dropping(series, extra):
         bounded=dict(bound='every history of <= 7 (thorough: 8) actions over 5 statement sizes and poll; queue capacity 1 KiB (unbounded: up to 2 KiB)', form='b'),
         dropped=[], trusted=['g++ / libstdc++ / fmt execute the real frontend and backend on ONE thread (no concurrency: the interleavings are units BQ.* / UQ.*)'], min_obligations=1, timeout=1500)
 UNITS += [_dropping('bounded', []), _dropping('unbounded', ['SERIES_UNBOUNDED']), _dropping('bounded, C-string arguments', ['SERIES_CSTR'])]
+dropping_exit_flush = dict(
+    name='LG.dropping_exit_flush', primary='C08', props={'C08'}, kind='L', funcs=[], enforce=None,
+    desc='bounded dropping queue, a thread that discards statements and exits, then a flush request from another thread processed before any idle pass of the backend (the flush path reclaims exited threads\' contexts): reported drops == discarded statements (found the genuine defect repaired by the fix: commit of session 4)',
+    native=dict(cpp='dropping_exit_flush.cpp', file='include/quill/backend/BackendWorker.h', function='BackendWorker::{_process_lowest_timestamp_transit_event (flush arm),_check_failure_counter,_cleanup_invalidated_thread_contexts}, LoggerImpl::{log_statement,flush_log}', defs_quick=['KMAX=60'], defs_thorough=['KMAX=200']),
+    bounded=dict(bound='K = 1 .. 60 (thorough: 200) statements in steps, one exiting thread, one flushing thread; one OS schedule per case (threads sequenced by join / flags)', form='b'),
+    dropped=[], trusted=['g++ / libstdc++ / fmt execute the real frontend and backend'], min_obligations=1, timeout=600)
+UNITS += [dropping_exit_flush]
 exception_history = dict(
     name='BW.exception_history', primary='C10', props={'C10'}, kind='L', funcs=[], enforce=None,
     desc='formatting failures (user formatter throwing std::exception or an int, DeferredFormatCodec) and throwing sinks through the real pipeline with two sinks on one logger, for every history of bounded length: the other statements reach both sinks once and in order, a failing one is missing at most from the throwing sink and those after it or carries the explanatory text, every failure is reported once, the backend keeps running',
